@@ -18,7 +18,7 @@ except ImportError:      # replays run under the repository's interpreter, witho
 
 from pyvc import textio, texts
 from pyvc.api import (Module, Interface, Method, Iface, Inst, Int, Nat, Pos, Bool, Str, Opt, OneOf, Const, Union,
-                      ListOf, IterOf, CtxOf, InPlace, FixedList, Any_, Custom, new_opaque, assume_pred)
+                      ListOf, IterOf, CtxOf, InPlace, InPlaceBy, FixedList, Any_, Custom, new_opaque, assume_pred)
 from pyvc.textio import PathI, TextOutI, TextFileI, StringIOI
 from pyvc.values import SStr, SBool, SList, Opaque, to_z3, wrap
 from pyvc.models import SIter
@@ -75,6 +75,12 @@ def written(out):
 def decoded(s):
     """universal-newline translation: what reading stored text s in text mode gives"""
     return s.replace('\r\n', '\n').replace('\r', '\n')
+
+
+def with_lines(cm):
+    """the lines a `with cm as lines` block sees (cm: the value of an as_lines property)"""
+    with cm as lines:
+        return list(lines)
 
 
 def ctx_lines(g):
@@ -144,7 +150,20 @@ def append_text(interp, out, s):
 
 
 def _spooled_receive(interp, out, s):
-    raise NotImplementedError
+    """A writer writes text s to a real SpooledTextFile in an unknown number of write / writelines calls.
+    By induction over the calls, each of which is proved (contracts of SpooledTextFile.write and
+    .writelines below) to keep `spooled_ok` and to extend `spooled_written` by what it is given:
+    afterwards the file is in some state with spooled_ok, holding old + s; it is still a memory buffer
+    exactly if it was one and everything fits."""
+    old_w = interp.call(spooled_written, [out])
+    was_mem = out._path is None
+    _havoc_spooled(interp, out, 'received')
+    assume_pred(interp, _spooled_received, out, old_w, s, was_mem)
+
+
+def _spooled_received(f, old_w, s, was_mem):
+    return spooled_ok(f) and spooled_written(f) == old_w + s \
+        and iff(f._path is None, was_mem and len(old_w + s) <= f._max_size)
 
 
 def _ssc_write_to(interp, self, args, kwargs):
@@ -216,6 +235,10 @@ def txt_of(c):
     if isinstance(c, contents_via_write_to.ContentsViaWriteTo):
         # every reader of this class goes through the file the writer's output is stored in
         return decoded(c._writer.txt)
+    if isinstance(c, cached_frozen._FreezingStringSourceContents):
+        return txt_of(c._unfrozen)
+    if isinstance(c, tss_prims._TransformedStringSourceContentsFromLines):
+        return c._transformation.F(txt_of(c._transformed))
     raise ValueError('txt_of: unexpected class %r' % (type(c),))
 
 
@@ -344,4 +367,317 @@ M.contract(P_CWCP + ':StringSourceContentsWithCachedPath.as_file',
            params=dict(self=WITH_CACHED_PATH_FROM_WRITE_TO), inline=True,
            ensures={'file decodes to txt': lambda self, result: file_text(result) == txt_of(self),
                     'the path is cached': lambda self, result: self._as_file_path is result},
+           raises_only=())
+
+
+# ============================================================================== SpooledTextFile
+# Ghost: `spooled_written(f)` -- everything written so far.  Invariant `spooled_ok(f)`:
+#   memory state (_path is None): _file is the StringIO, its value is what was written, and it fits
+#   disk state:                   _file is the file at _path opened for update, the file holds what was
+#                                 written, and the position is the end of the file (so that further
+#                                 writes append).
+
+def sio_value(sio):
+    return sio.getvalue()
+
+
+def is_file_at(fileobj, path):
+    import os
+    return os.path.samefile(fileobj.name, str(path))
+
+
+def positioned_at_end(fileobj):
+    import os
+    fileobj.flush()
+    return fileobj.tell() == os.fstat(fileobj.fileno()).st_size
+
+
+def _g(interp, args, key):
+    return _res(interp, args[0])._pv_ghost[key]
+
+
+M.model(sio_value, lambda interp, args, kwargs: wrap(textio._sio_value(interp, _res(interp, args[0]))))
+M.model(is_file_at, lambda interp, args, kwargs: _g(interp, args, 'path') is _res(interp, args[1]))
+M.model(positioned_at_end, lambda interp, args, kwargs: _g(interp, args, 'at_end'))
+
+
+def spooled_written(f):
+    if f._path is None:
+        return sio_value(f._file)
+    f._file.flush()
+    return file_stored(f._path)
+
+
+def spooled_ok(f):
+    if f._path is None:
+        return len(sio_value(f._file)) <= f._max_size
+    return is_file_at(f._file, f._path) and positioned_at_end(f._file)
+
+
+class UnusedPathFnI(Interface):
+    """get_unused_path: gives a path that is not in use (environment assumption, as DirFileSpace.new_path)"""
+    methods = {'__call__': Method(model=lambda interp, self, args, kwargs: textio.new_unused_path(interp, 'unused'))}
+
+
+def _new_disk_file(interp, name, path, at_end):
+    df = new_opaque(interp, TextFileI, name)
+    df._pv_ghost.update(path=path, mode='x+', at_end=at_end, closed=False)
+    return df
+
+
+def _mk_spooled(state, ok=True):
+    def make(interp, name):
+        f = Inst(spooled_file.SpooledTextFile, _max_size=Pos, _get_unused_path=Iface(UnusedPathFnI)).make(interp, name)
+        if state == 'mem':
+            f._path = None
+            f._file = new_opaque(interp, StringIOI, name + '._file')
+        else:
+            f._path = new_opaque(interp, PathI, name + '._path')
+            f._file = _new_disk_file(interp, name + '._file', f._path, Bool.make(interp, name + '._file.at_end'))
+        if ok:
+            interp.st.assume(interp.truth(interp.call(spooled_ok, [f])))
+        return f
+
+    return Custom(make)
+
+
+SPOOLED_MEM = _mk_spooled('mem')
+SPOOLED_DISK = _mk_spooled('disk')
+SPOOLED = Union(SPOOLED_MEM, SPOOLED_DISK)
+# _check / _rollover are entered when the buffer has just been exceeded
+SPOOLED_MEM_ANY_SIZE = _mk_spooled('mem', ok=False)
+
+
+def _havoc_spooled(interp, f, tag):
+    """in-place havoc of a SpooledTextFile: it stays what it is with other contents, or (from the memory
+    state) has been rolled over to a new file on disk"""
+    if f._path is not None:
+        textio.set_stored(interp, f._path, interp.st.fresh_str(tag + '.stored'))
+        f._file._pv_ghost['at_end'] = Bool.make(interp, tag + '.at_end')
+        return
+    if interp.st.choose(2) == 0:
+        f._file._pv_ghost['value'] = interp.st.fresh_str(tag + '.value')
+    else:
+        p = new_opaque(interp, PathI, tag + '._path')
+        textio.set_stored(interp, p, interp.st.fresh_str(tag + '.stored'))
+        f._path = p
+        f._file = _new_disk_file(interp, tag + '._file', p, Bool.make(interp, tag + '.at_end'))
+
+
+_P_STF = P_SPOOLED + ':SpooledTextFile'
+
+M.contract(_P_STF + '.__init__',
+           params=dict(self=Inst(spooled_file.SpooledTextFile), mem_buff_size=Int, get_unused_path=Iface(UnusedPathFnI)),
+           requires=lambda mem_buff_size: mem_buff_size >= 1, inline=True,
+           ensures={'empty memory buffer': lambda self: self._path is None and spooled_ok(self)
+                                                        and spooled_written(self) == '',
+                    'size': lambda self, mem_buff_size: self._max_size == mem_buff_size},
+           raises_only=())
+
+M.contract(_P_STF + '._rollover', params=dict(self=Union(SPOOLED_MEM_ANY_SIZE, SPOOLED_DISK)),
+           old=lambda self: (spooled_written(self), self._path, self._max_size),
+           modifies={'self': InPlaceBy(_havoc_spooled)},
+           ensures={
+               'on disk': lambda self, old: self._path is not None and (old[1] is None or self._path is old[1]),
+               'the disk file holds what was written': lambda self, old: spooled_written(self) == old[0],
+               'positioned at the end of the disk file (further writes append)': lambda self: spooled_ok(self),
+               'size unchanged': lambda self, old: self._max_size == old[2],
+           }, raises_only=())
+
+M.contract(_P_STF + '._check', params=dict(self=SPOOLED_MEM_ANY_SIZE, file=Any_), inline=True,
+           setup=lambda interp, args, ghosts: args.__setitem__('file', args['self']._file),     # file is self._file
+           old=lambda self: spooled_written(self),
+           ensures={'nothing lost': lambda self, old: spooled_written(self) == old,
+                    'invariant': lambda self: spooled_ok(self)}, raises_only=())
+
+M.contract(_P_STF + '.write', params=dict(self=SPOOLED, s=Str),
+           old=lambda self: (spooled_written(self), self._path is None, self._max_size),
+           modifies={'self': InPlaceBy(_havoc_spooled)},
+           ensures={
+               'appends s': lambda self, s, old: spooled_written(self) == old[0] + s,
+               'invariant': lambda self: spooled_ok(self),
+               'memory buffer iff it was one and everything fits':
+                   lambda self, s, old: iff(self._path is None, old[1] and len(old[0] + s) <= self._max_size),
+               'size unchanged': lambda self, old: self._max_size == old[2],
+           }, raises_only=())
+
+M.contract(_P_STF + '.writelines', params=dict(self=SPOOLED, lines=IterOf(Str)),
+           old=lambda self, lines: (spooled_written(self), self._path is None, self._max_size, join_of(peek(lines))),
+           modifies={'self': InPlaceBy(_havoc_spooled)},
+           ensures={
+               'appends the lines': lambda self, old: spooled_written(self) == old[0] + old[3],
+               'invariant': lambda self: spooled_ok(self),
+               'memory buffer iff it was one and everything fits':
+                   lambda self, old: iff(self._path is None, old[1] and len(old[0] + old[3]) <= self._max_size),
+               'size unchanged': lambda self, old: self._max_size == old[2],
+           }, raises_only=())
+
+
+def _writelines_inv(self, file, max_size, lines, old, _i, _n, _xs):
+    if self._path is None:
+        return self._file is file and sio_value(file) == old[0] + prefix_join(_xs, _i) \
+            and len(sio_value(file)) <= max_size and max_size == self._max_size and self._max_size == old[2]
+    return _i == _n and old[1] and spooled_ok(self) and spooled_written(self) == old[0] + prefix_join(_xs, _n) \
+        and len(old[0] + prefix_join(_xs, _n)) > self._max_size and self._max_size == old[2]
+
+
+M.loop(_P_STF + '.writelines', 0, invariant=_writelines_inv,
+       modifies={'file': InPlace(value=Str), 'self': InPlaceBy(_havoc_spooled), '@self._file': None, 'line': 'local'})
+
+M.contract(_P_STF + '.is_mem_buff', params=dict(self=SPOOLED), inline=True,
+           ensures={'tells the state': lambda self, result: result == (self._path is None)}, raises_only=())
+M.contract(_P_STF + '.is_file_on_disk', params=dict(self=SPOOLED), inline=True,
+           ensures={'tells the state': lambda self, result: result == (self._path is not None)}, raises_only=())
+
+M.contract(_P_STF + '.mem_buff', params=dict(self=SPOOLED), inline=True,
+           raises={ValueError: {'when': lambda self: self._path is not None}},
+           ensures={'what was written': lambda self, result: result == spooled_written(self)}, raises_only=())
+
+M.contract(_P_STF + '.path_of_file_on_disk', params=dict(self=SPOOLED), inline=True,
+           raises={ValueError: {'when': lambda self: self._path is None}},
+           ensures={'the path': lambda self, result: result is self._path}, raises_only=())
+
+
+# ============================================================================== frozen__from_write
+
+def file_size(path):
+    import os
+    return os.path.getsize(str(path))
+
+
+M.model(file_size, lambda interp, args, kwargs:
+        wrap(textio.blen(interp, textio.stored_of(interp, _res(interp, args[0])))))
+
+
+def writer_txt(w):
+    if is_opaque(w):
+        return w.txt
+    if isinstance(w, cached_frozen._ContentsWriter):
+        return txt_of(w._contents)
+    raise ValueError('writer_txt: unexpected class %r' % (type(w),))
+
+
+CONTENTS_WRITER = Inst(cached_frozen._ContentsWriter, _contents=SSC)
+ANY_WRITER = Union(Iface(WriterI), CONTENTS_WRITER)
+
+M.contract(P_CACHED + ':_ContentsWriter.write',
+           params=dict(self=CONTENTS_WRITER, tmp_file_space=Iface(DirFileSpaceI), output=Iface(TextOutI)),
+           inline=True, old=lambda output: written(output),
+           ensures={'appends txt': lambda self, output, old: written(output) == old + writer_txt(self)},
+           raises_only=())
+
+M.contract(P_FROZEN + ':_size_of_file_on_disk', params=dict(f=SPOOLED_DISK), returns=Int,
+           old=lambda f: (spooled_written(f), f._path),
+           modifies={'f': InPlaceBy(_havoc_spooled)},
+           ensures={'size in bytes': lambda f, result: result == file_size(f._path),
+                    'file untouched': lambda f, old: spooled_written(f) == old[0] and f._path is old[1]
+                                                     and spooled_ok(f)},
+           raises_only=())
+
+M.contract(P_FROZEN + ':_contents_of_file__if_fits_within_mem_buff',
+           params=dict(f=SPOOLED_DISK, mem_buff_size=Int), returns=Opt(Str),
+           old=lambda f: (spooled_written(f), f._path),
+           modifies={'f': InPlaceBy(_havoc_spooled)},
+           ensures={'the decoded file, if any': lambda f, result: result is None or result == file_text(f._path),
+                    'none iff too big': lambda f, mem_buff_size, result:
+                    iff(result is None, file_size(f._path) > mem_buff_size),
+                    'file untouched': lambda f, old: file_stored(f._path) == old[0] and f._path is old[1]},
+           raises_only=())
+
+
+def implements_i_ssc(c):
+    """the result is an instance of a class proved (above) to implement I_SSC, in a state satisfying
+    that class's invariant"""
+    if is_opaque(c):
+        return True
+    if isinstance(c, contents_of_str.ContentsOfStr):
+        return cached_path_ok(c)
+    if isinstance(c, frozen._StringSourceContentsOfConstStrAndExistingPath):
+        return _const_str_and_path_ok(c)
+    return isinstance(c, contents_of_existing_path.StringSourceContentsOfExistingPath)
+
+
+M.contract(P_FROZEN + ':frozen__from_write',
+           params=dict(mem_buff_size=Int, writer=ANY_WRITER, tmp_file_space=Iface(DirFileSpaceI), file_name=Opt(Str)),
+           requires=lambda mem_buff_size: mem_buff_size >= 1,
+           returns=SSC,
+           ensures={
+               'the frozen text is the text written': lambda writer, result: txt_of(result) == writer_txt(writer),
+               'implements I_SSC': lambda result: implements_i_ssc(result),
+               'kept in memory iff it fits in the buffer': lambda writer, mem_buff_size, result:
+               is_opaque(result) or iff(isinstance(result, contents_of_str.ContentsOfStr),
+                                        len(writer_txt(writer)) <= mem_buff_size),
+           }, raises_only=())
+
+
+# ============================================================================== cached_frozen
+# _FreezingStringSourceContents: txt := the text of the unfrozen contents; the first access writes it
+# through frozen__from_write (contract above) and every access is answered by the frozen contents.
+
+def _freezing_ok(c):
+    return c._mem_buff_size >= 1 and (c._contents is None or c._contents.txt == c._unfrozen.txt)
+
+
+FREEZING = Inst(cached_frozen._FreezingStringSourceContents, _invariant=_freezing_ok,
+                _unfrozen=SSC, _contents=Opt(SSC), _mem_buff_size=Int, _file_name_suffix=Opt(Str))
+_P_FRZ = P_CACHED + ':_FreezingStringSourceContents'
+
+M.contract(_P_FRZ + '._new_frozen', params=dict(self=FREEZING), inline=True,
+           ensures={'the frozen text is the text': lambda self, result: txt_of(result) == txt_of(self)},
+           raises_only=())
+
+M.contract(_P_FRZ + '._get_contents', params=dict(self=FREEZING), inline=True,
+           old=lambda self: self._contents,
+           ensures={'has the text': lambda self, result: txt_of(result) == txt_of(self),
+                    'frozen once': lambda self, result, old: self._contents is result
+                                                             and (old is None or result is old),
+                    'invariant': lambda self: _freezing_ok(self)},
+           raises_only=())
+
+M.contract(_P_FRZ + '.as_str', params=dict(self=FREEZING), inline=True,
+           ensures={'as_str == txt': lambda self, result: result == txt_of(self)}, raises_only=())
+
+M.contract(_P_FRZ + '.as_lines', params=dict(self=FREEZING), inline=True,
+           ensures={'lines == split_nl(txt)': lambda self, result: is_split_nl(with_lines(result), txt_of(self))},
+           raises_only=())
+
+M.contract(_P_FRZ + '.as_file', params=dict(self=FREEZING), inline=True,
+           ensures={'file decodes to txt': lambda self, result: file_text(result) == txt_of(self)}, raises_only=())
+
+M.contract(_P_FRZ + '.write_to', params=dict(self=FREEZING, output=Iface(TextOutI)), inline=True,
+           old=lambda output: written(output),
+           ensures={'appends txt': lambda self, output, old: written(output) == old + txt_of(self)},
+           raises_only=())
+
+M.contract(_P_FRZ + '.tmp_file_space', params=dict(self=FREEZING), inline=True,
+           ensures={'of the unfrozen': lambda self, result: result is self._unfrozen.tmp_file_space},
+           raises_only=())
+
+# --- StringSourceWithCachedFrozen: the text of contents() is the same before and after freeze()
+
+CACHED_FROZEN = Inst(cached_frozen.StringSourceWithCachedFrozen,
+                     _invariant=lambda self: self._mem_buff_size >= 1,
+                     _new_structure_builder=Any_, _mem_buff_size=Int, _name_suffix=Opt(Str),
+                     _contents=Union(SSC, FREEZING), _is_frozen=Bool)
+_P_SSCF = P_CACHED + ':StringSourceWithCachedFrozen'
+
+M.contract(_P_SSCF + '.contents', params=dict(self=CACHED_FROZEN), inline=True,
+           ensures={'the contents': lambda self, result: result is self._contents}, raises_only=())
+
+M.contract(_P_SSCF + '.freeze', params=dict(self=CACHED_FROZEN),
+           old=lambda self: (txt_of(self._contents), self._contents, self._is_frozen),
+           modifies={'self._contents': FREEZING, 'self._is_frozen': Bool},
+           ensures={
+               'same text before and after freeze': lambda self, old: txt_of(self.contents()) == old[0],
+               'frozen': lambda self: self._is_frozen,
+               'idempotent': lambda self, old: (not old[2]) or self._contents is old[1],
+               'the new contents implement I_SSC': lambda self, old:
+               old[2] or (isinstance(self._contents, cached_frozen._FreezingStringSourceContents)
+                          and _freezing_ok(self._contents)),
+           }, raises_only=())
+
+M.contract(_P_SSCF + '.__init__',
+           params=dict(self=Inst(cached_frozen.StringSourceWithCachedFrozen), new_structure_builder=Any_, unfrozen=SSC,
+                       mem_buff_size=Int, name_suffix=Opt(Str)), inline=True,
+           ensures={'unfrozen contents': lambda self, unfrozen: self.contents() is unfrozen and not self._is_frozen},
            raises_only=())
